@@ -26,6 +26,11 @@ CONTRACTS = os.path.join(HERE, "c20_contracts.py")
 HERE_ROOT = os.path.dirname(HERE)
 
 
+# class-level mutable containers of the library (found by the ast scan below) and the CrossHair contract that decides that
+# instances do not communicate through them
+CLASS_STATE_CONTRACTS = {"AeroBuilder.def_options": "builders_do_not_share_options"}
+
+
 # ------------------------------------------------------------------------------------- CrossHair
 def contract_functions():
     src = open(CONTRACTS).read()
@@ -98,8 +103,13 @@ def crosshair_part(rep, tier):
                 if ok is True or call is None:
                     rep.not_reproduced.append({"id": r["name"], "why": "CrossHair counterexample %s does not reproduce" % call})
                 else:
-                    fam = "invalid set-up accepted: %s" % r["name"]
-                    rep.violation(fam, "%s -> %r (expected the documented exception/warning)" % (call, ok), {"call": call, "contract": r["name"], "crosshair": True})
+                    if r["name"] in CLASS_STATE_CONTRACTS.values():
+                        fam = "hidden shared state between independent set-ups: %s" % r["name"]
+                        what = "(a later set-up without options must have the documented defaults)"
+                    else:
+                        fam = "invalid set-up accepted: %s" % r["name"]
+                        what = "(expected the documented exception/warning)"
+                    rep.violation(fam, "%s -> %r %s" % (call, ok, what), {"call": call, "contract": r["name"], "crosshair": True})
             else:
                 rep.counts["inconclusive"] += 1
                 inc += 1
@@ -395,6 +405,7 @@ def global_state_scan(rep):
 
     root = os.path.dirname(openaerostruct.__file__)
     hits = []
+    class_level = []
     nfun = 0
     for dp, dn, fn in os.walk(root):
         if any(x in dp for x in ("docs", "examples", "tests")):
@@ -411,6 +422,13 @@ def global_state_scan(rep):
                         for sub in ast.walk(t):
                             if isinstance(sub, ast.Name):
                                 mod_globals.add(sub.id)
+            for cnode in ast.walk(tree):
+                if isinstance(cnode, ast.ClassDef):
+                    for b in cnode.body:
+                        if isinstance(b, (ast.Assign, ast.AnnAssign)) and isinstance(b.value, (ast.Dict, ast.List, ast.Set, ast.Call, ast.ListComp, ast.DictComp, ast.SetComp)):
+                            for t in (b.targets if isinstance(b, ast.Assign) else [b.target]):
+                                if isinstance(t, ast.Name):
+                                    class_level.append("%s.%s" % (cnode.name, t.id))
             for fnode in ast.walk(tree):
                 if not isinstance(fnode, ast.FunctionDef):
                     continue
@@ -438,10 +456,17 @@ def global_state_scan(rep):
                                 base = base.value
                             if isinstance(base, ast.Name) and base.id in mod_globals and base.id not in params and base.id not in local_assigned:
                                 hits.append("%s:%d mutates module-level %s" % (path, node.lineno, base.id))
-    rep.groups.append({"case": "module-level state scan", "functions_scanned": nfun, "writes_to_module_globals": hits})
+    rep.groups.append({"case": "module-level state scan", "functions_scanned": nfun, "writes_to_module_globals": hits,
+                       "class_level_containers": class_level})
+    have = {n for n, _ in contract_functions()}
+    for c in class_level:
+        if CLASS_STATE_CONTRACTS.get(c) not in have:
+            rep.counts["obligations"] += 1
+            rep.counts["inconclusive"] += 1
+            rep.inconclusive.append({"group": "class-level state", "id": c, "detail": "class-level mutable container without an instance-independence contract"})
     for h in hits:
         rep.violation("hidden global state: %s" % h.split(" ", 1)[1], h, {"where": h})
-    rep.log("global-state scan: %d functions, %d writes to module-level names" % (nfun, len(hits)))
+    rep.log("global-state scan: %d functions, %d writes to module-level names, class-level containers %s" % (nfun, len(hits), class_level))
 
 
 def run(tier, seed, only=None):
